@@ -307,6 +307,8 @@ def gen_c06(rng, tier):
                                              ipv4(ss, dd, 6, lib.tcp(sp, dp, 7, 0, 2, src=ss, dst=dd))))
             frames += [mk(s, d, sport, dport), mk(s, d2, sport, dport), mk(s, d, sport, dport), mk(s2, d, sport, dport),
                        mk(s, d, sport ^ 1, dport), mk(s, d, sport, dport ^ 1), mk(s, d, sport, dport)]
+            # SYNs whose source is itself a handled address (another one, or the destination: LAND-shaped) -- still SYNs
+            frames += [mk(d2, d, sport, dport), mk(d, d, sport, dport), mk(d, d2, sport, dport)]
         cases.append(case(w, frames, ['syn-retransmit', 'syn-sweep']))
     return cases + gen_sticky(rng, tier, n=(40 if tier == 'quick' else 1000))
 
@@ -875,6 +877,45 @@ def gen_c10(rng, tier):
             if part:
                 ops.append(('A', 'tcp', s4, d4, sp, dp, ck, part))
     cases.append(acase(w, ops, ['tcp-segmented-identification']))
+    # systematically: a valid request of every signature-dispatched protocol cut after each of its first 12 bytes, and with its
+    # first 8 bytes sent one byte per segment (single-byte segments 00 / 01 / ff / letters inside the signature)
+    ops = []
+    s4, d4 = w.addrs(False)
+    for kind in ('stun', 'rpc', 'smb1', 'smb2', 'ghost', 'ssh', 'http'):
+        for rep in range(1 if tier == 'quick' else 8):
+            req = gen.gen_stun_long(rng) if kind == 'stun' else gen.gen_app(rng, tcp=True, kinds=[kind])[2]
+            while kind != 'stun' and len(req) < 14:
+                req = gen.gen_app(rng, tcp=True, kinds=[kind])[2]
+            plans = [[req[:c], req[c:]] for c in range(1, 13)] + [[req[i:i + 1] for i in range(8)] + [req[8:]]]
+            for parts in plans:
+                _ck[0] += 1
+                sp, dp = rng.u16(), rng.u16()
+                for part in parts:
+                    if part:
+                        ops.append(('A', 'tcp', s4, d4, sp, dp, _ck[0], part))
+    cases.append(acase(w, ops, ['tcp-signature-cut-sweep']))
+    # ... and through the real TCP layer (a segment the TCP layer swallows never reaches the matcher): the protocol id recorded
+    # for the flow (P op) must be the one recorded for the unsegmented request, however the leading bytes were cut
+    fops, groups = [('C', w.cfg()), ('X',)], []
+    s4, d4 = w.addrs(False)
+    for kind in ('stun', 'rpc', 'smb1', 'smb2', 'ghost', 'ssh', 'http'):
+        req = gen.gen_stun_long(rng) if kind == 'stun' else gen.gen_app(rng, tcp=True, kinds=[kind])[2]
+        while kind != 'stun' and len(req) < 14:
+            req = gen.gen_app(rng, tcp=True, kinds=[kind])[2]
+        plans = [[req]] + [[req[:c], req[c:]] for c in range(1, 10)] + [[req[i:i + 1] for i in range(8)] + [req[8:]]]
+        pidx = []
+        for parts in plans:
+            _ck[0] += 1
+            sp, dp, seq = 1024 + _ck[0] % 60000, rng.u16(), rng.u32()       # a fresh 4-tuple per plan
+            for part in parts:
+                if part:
+                    fops.append(('F', w.data_frame(False, sp, dp, seq, part)))
+                    seq = (seq + len(part)) & 0xffffffff
+            fops.append(('P', w.cookie(s4, d4, sp, dp)))
+            pidx.append(len(fops) - 1)
+        groups.append((kind, pidx, [[len(x) for x in pl] for pl in plans]))
+    fc = {'ops': fops, 'tags': ['tcp-signature-cut-sweep-frames', 'frames-cumulative'], 'idgroups': groups}
+    cases.append(fc)
     return cases
 
 
@@ -898,6 +939,24 @@ def gen_c14(rng, tier):
     return cases
 
 
+def post_c10(cases):
+    """segmentation sweep through the real TCP layer: the protocol id of a flow does not depend on how its leading bytes were cut"""
+    out = []
+    for c in cases:
+        for kind, pidx, plans in c.get('idgroups', []):
+            if any(i >= len(c['impl']) for i in pidx):
+                continue
+            ids = [(c['impl'][i]['r'] or '-').split()[1:2] for i in pidx]
+            for k in range(1, len(ids)):
+                if ids[k] != ids[0]:
+                    lo = pidx[k - 1] + 1
+                    out.append({'clause': 'protocol id of a %s flow depends on the segmentation of its leading bytes: unsegmented %s, segment sizes %s give %s'
+                                          % (kind, ids[0], plans[k], ids[k]),
+                                'ops': [op_to_json(x) for x in c['ops'][:2] + c['ops'][lo:pidx[k] + 1]], 'tags': c['tags'] + [kind]})
+                    break
+    return out
+
+
 # ----------------------------------------------------------------------------- property table
 
 PROPS = {
@@ -906,7 +965,7 @@ PROPS = {
                      'over all 2x2x3x6 configurations with real loggers attached and log arguments evaluated; non-trivial = distinct (frame, logger, level) '
                      'with an authorised destination MAC, i.e. processed beyond the Ethernet filter; judge: no PANIC',
                 trusted=['panics are observed through catch_unwind in the hook driver; aborts that are not panics (allocation failure, stack overflow) are outside the model']),
-    'C10': dict(gen=gen_c10, judge='C10', judge_mode='stream', proj=proj_app,
+    'C10': dict(gen=gen_c10, judge='C10', judge_mode='stream', proj=proj_app, post=post_c10,
                 rule='matcher level: signature seeds truncated / extended / wildcard positions filled with bytes that are literals of other '
                      'signatures / mutated, one real search_next(+end) call each; application level: payload grammars of every protocol over UDP and '
                      'TCP, IPv4 and IPv6, random ports; non-trivial = payload whose reference identification is some signature (or, for replies, a '
@@ -1004,16 +1063,27 @@ def case_from_json(c, name=''):
     return {'ops': [op_from_json(o) for o in c['ops']], 'tags': c.get('tags', []) + ['corpus:' + name]}
 
 
-def run_cases(cases, want_model=True, release=False):
+def run_cases(cases, want_model=True, release=False, isolate=False):
     """Run every case on the implementation and on the model. Fills case['impl'], case['model'] (block lists)."""
     ops = [o for c in cases for o in c['ops']]
-    ib, rc, err, partial = run_impl(ops, release=release)
-    dead = len(ib) < len(ops)
-    k = 0
-    for c in cases:
-        n = len(c['ops'])
-        c['impl'] = ib[k:k + n]
-        k += n
+    if isolate:
+        # one fresh implementation process per case: state the `X` op cannot reset (statics outside the connection table)
+        # does not leak from one case into the next
+        from concurrent.futures import ThreadPoolExecutor
+        with ThreadPoolExecutor(max_workers=12) as ex:
+            outs = list(ex.map(lambda c: run_impl(c['ops'], release=release), cases))
+        dead = False
+        for c, (ib1, _, _, _) in zip(cases, outs):
+            c['impl'] = ib1
+            dead = dead or len(ib1) < len(c['ops'])
+    else:
+        ib, rc, err, partial = run_impl(ops, release=release)
+        dead = len(ib) < len(ops)
+        k = 0
+        for c in cases:
+            n = len(c['ops'])
+            c['impl'] = ib[k:k + n]
+            k += n
     if not want_model:
         return dead
     mops = []
@@ -1068,7 +1138,7 @@ def ev_equal(a, b):
     return True
 
 
-def frame_obs_line(frame, reply):
+def frame_obs_line(frame, reply, payload=None):
     """application-interface observation recovered from a request frame and the reply frame (clean UDP / first TCP data frames only)"""
     q = split_reply(frame)
     if 'ip' not in q or ('udp' not in q and 'tcp' not in q):
@@ -1084,7 +1154,7 @@ def frame_obs_line(frame, reply):
         rp = hx(app) if app else '-'
         pa = d['tcp'][0] if 'tcp' in d else d['udp'][0] if 'udp' in d else dp
     return 'A %s %s %s %d %d - %s %s %d' % ('tcp' if tcp else 'udp', ip_model(q['ip'][0]), ip_model(q['ip'][1]), sp, dp,
-                                            hx(q.get('app') or b''), rp, pa)
+                                            hx((q.get('app') or b'') if payload is None else payload), rp, pa)
 
 
 def judge_lines(c, mode='frame'):
@@ -1104,7 +1174,18 @@ def judge_lines(c, mode='frame'):
         if o[0] in ('C', 'X'):
             lines.append(render(o, 'model'))
         elif o[0] == 'F' and mode in ('app', 'stream'):
-            ln = frame_obs_line(o[1], b['r'] or '-')
+            over = None
+            if mode == 'stream' and 'frames-cumulative' in c['tags'] and flow_key(o[1]) is not None:
+                # valid data segments of one connection sent as frames: judged on the byte stream of the flow so far (as for A ops)
+                fk = flow_key(o[1])
+                if fk in stream_done:
+                    continue
+                q = split_reply(o[1])
+                streams[fk] = streams.get(fk, b'') + (q.get('app') or b'')
+                over = streams[fk]
+                if outcome(b['r'] or '-') == 'reply' and (split_reply(bytes.fromhex((b['r'] or '-').split()[0])).get('app')):
+                    stream_done.add(fk)
+            ln = frame_obs_line(o[1], b['r'] or '-', over)
             if ln:
                 lines.append(ln)
                 idx.append(i)
@@ -1220,7 +1301,9 @@ def explore(prop, pd, tier, seed, replay=None):
             if o[0] not in ('F', 'A', 'S'):
                 continue
             if i >= len(c['impl']):
-                violations.append({'clause': ('implementation did not return from this op (killed after %d s): processing does not terminate' % lib.HUNG[-1]) if lib.HUNG else 'implementation process died', 'panic': True, 'ops': [op_to_json(x) for x in c['ops'][:i + 1]], 'tags': c['tags']})
+                if any(v.get('died') for v in violations):
+                    break      # later cases never ran: only the op that did not return is reported
+                violations.append({'clause': ('implementation did not return from this op (killed after %d s): processing does not terminate' % lib.HUNG[-1]) if lib.HUNG else 'implementation process died', 'panic': True, 'died': True, 'ops': [op_to_json(x) for x in c['ops'][:i + 1]], 'tags': c['tags']})
                 break
             evaluations += 1
             a = c['impl'][i]
@@ -1287,6 +1370,8 @@ def explore(prop, pd, tier, seed, replay=None):
                     if pa != pb:
                         disagreements.append({'ops': [op_to_json(x) for x in c['ops'][:i + 1]], 'impl': a['r'][:600], 'model': b['r'][:600],
                                               'impl_table': a['t'], 'model_table': b['t']})
+    if pd.get('post'):
+        violations += pd['post'](cases)
     # shrink the first few violations (drop ops that are not needed for the last op to fail)
     for v in violations[:3]:
         if v.get('ops') and len(v['ops']) > 3 and pd.get('judge'):
@@ -1769,7 +1854,67 @@ def explore_c08(prop, pd, tier, rng, corpus_cases):
         groups.append((ids, fb, k1['ops'][0]))
     except FileNotFoundError:
         pass
-    run_cases(cases)
+    # stateless probes: UDP requests of every protocol, echo requests, ARP requests, neighbour solicitations -- their reply may not
+    # depend on ANY history. The histories are made of near-duplicates of the probe (the same payload from other endpoints, with the
+    # case of its letters flipped, with one byte changed, sent to the second handled address, over the other transport): caches
+    # keyed by a normalisation of the request show up there
+    sw = World(rng, selfmode=rng.chance(1, 2), denymode=False)
+    swcfg = ('C', sw.cfg())
+
+    def uframe(v6, src, dst, mac, sp, dp, pl):
+        l4 = lib.udp(sp, dp, pl, src=src, dst=dst)
+        return eth(sw.mac, mac, 0x86dd if v6 else 0x0800, ipv6(src, dst, 17, l4) if v6 else ipv4(src, dst, 17, l4))
+
+    def flipcase(b):
+        return bytes(c ^ 0x20 if (65 <= c <= 90 or 97 <= c <= 122) else c for c in b)
+
+    for _ in range(40 if tier == 'quick' else 800):
+        v6 = rng.chance(1, 2)
+        src, dst = sw.addrs(v6)
+        dst2 = sw.my6b if v6 else sw.my4b
+        src2 = bytes([src[0] ^ 1]) + src[1:]
+        mac2 = bytes.fromhex('02aabbccdd02')
+        kind = rng.choice(['dns', 'dns', 'dns', 'stun', 'rpc', 'http', 'ssh', 'ghost', 'smb1', 'echo', 'arp', 'ns'])
+        sp, dp = rng.u16(), rng.choice([53, 5353, 3478, 111, rng.u16()])
+        if kind in ('echo', 'arp', 'ns'):
+            body = bytes(0x61 + rng.below(26) for _ in range(8 + rng.below(24)))
+            if kind == 'arp':
+                mk = lambda s_, d_, m_, b_: eth(BCAST, m_, 0x0806, arp(1, m_, s_ if len(s_) == 4 else sw.cl4, bytes(6), d_ if len(d_) == 4 else sw.my4, pad=b_[:rng.below(4) * 0]))
+                v6 = False
+                src, dst, dst2, src2 = sw.cl4, sw.my4, sw.my4b, bytes([sw.cl4[0] ^ 1]) + sw.cl4[1:]
+            elif kind == 'ns':
+                v6 = True
+                src, dst, dst2, src2 = sw.cl6, sw.my6, sw.my6b, bytes([sw.cl6[0] ^ 1]) + sw.cl6[1:]
+                mk = lambda s_, d_, m_, b_: eth(sw.mac, m_, 0x86dd, ipv6(s_, d_, 58, icmp6(135, 0, bytes(4) + d_ + b'\x01\x01' + m_, s_, d_), hlim=255))
+            else:
+                mk = lambda s_, d_, m_, b_: eth(sw.mac, m_, 0x86dd if v6 else 0x0800,
+                                                ipv6(s_, d_, 58, icmp6(128, 0, b_, s_, d_)) if v6 else ipv4(s_, d_, 1, icmp(8, 0, b_)))
+            probe = mk(src, dst, sw.cl_mac, body)
+            near = [mk(src2, dst, sw.cl_mac, body), mk(src, dst, mac2, body), mk(src, dst2, sw.cl_mac, body), mk(src2, dst, mac2, flipcase(body)),
+                    mk(src, dst, sw.cl_mac, flipcase(body)), mk(src, dst, sw.cl_mac, body)]
+        else:
+            pl = gen.gen_app(rng, tcp=False, kinds=[kind])[2]
+            if kind == 'dns' and rng.chance(2, 3):
+                nm = b''.join(bytes([len(l)]) + l for l in [bytes(rng.choice(list(b'abcXYZ019-')) for _ in range(1 + rng.below(9))) for _ in range(1 + rng.below(3))]) + b'\x00'
+                nq = rng.choice([1, 1, 2])
+                pl = struct.pack('>HHHHHH', rng.u16(), 0x0100, nq, 0, 0, 0) + (nm + struct.pack('>HH', 1, 1)) * nq
+            b1 = bytearray(pl or b'x')
+            b1[rng.below(len(b1))] ^= 1 << rng.below(8)
+            probe = uframe(v6, src, dst, sw.cl_mac, sp, dp, pl)
+            near = [uframe(v6, src2, dst, sw.cl_mac, sp, dp, flipcase(pl)), uframe(v6, src, dst, mac2, sp ^ 1, dp, pl),
+                    uframe(v6, src, dst2, sw.cl_mac, sp, dp, pl), uframe(v6, src2, dst, mac2, sp, dp, bytes(b1)),
+                    uframe(v6, src, dst, sw.cl_mac, sp, dp, flipcase(pl)), uframe(v6, src, dst, sw.cl_mac, sp, dp, pl),
+                    sw.data_frame(v6, sp, dp, rng.u32(), flipcase(pl) or b'x')]
+        rng_near = [near[rng.below(len(near))] for _ in range(4)]
+        variants = [[], near, near[:1], near[4:5], rng_near + [gen.gen_frame(rng, sw)[1] for _ in range(4)], near + near]
+        ids = []
+        for vh in variants:
+            cases.append({'ops': [swcfg, ('X',)] + [('F', x) for x in vh] + [('F', probe)], 'tags': ['stateless-probe', 'probe:' + kind]})
+            ids.append(len(cases) - 1)
+        groups.append((ids, probe, swcfg))
+    iso = [c for c in cases if 'stateless-probe' in c['tags']]
+    run_cases([c for c in cases if 'stateless-probe' not in c['tags']])
+    run_cases(iso, isolate=True)
     violations, disagreements, samples = [], [], []
     nontrivial = 0
     # flood: more validated flows than any plausible table bound between the two halves of one request
@@ -1938,6 +2083,9 @@ def explore_c12(prop, pd, tier, rng, corpus_cases):
         frames.append(('tcp-reply-flags-with-data', w.data_frame(v6, sp, dp, rng.u32(), pl, flags=fl)))
         frames.append(('tcp-data', w.data_frame(v6, sp, dp, 7, b'GET / HT')))
         frames.append(('tcp-reply-flags-with-data', w.data_frame(v6, sp, dp, rng.u32(), pl, flags=fl, ackdelta=rng.choice([1, 5]))))
+        # bare RSTs on the flow that now has a control block: sequence number at / just inside / far inside / outside the window
+        for dlt in (0, 1, rng.choice([2, 17, 1000, 65534]), rng.choice([65535, 65536, 0x7fffffff, -1 & 0xffffffff])):
+            frames.append(('tcp-rst-on-established', w.tcp_frame(v6, sp, dp, (15 + dlt) & 0xffffffff, rng.choice([0, rng.u32()]), rng.choice([0x04, 0x04, 0x14]))))
     l2case = case(w, [f for _, f in frames], ['reply-typed-l2l4'])
     # reply-typed messages on a TCP flow already identified as that protocol (sticky id): STUN non-requests on a STUN
     # flow, reply-flagged SMB on an SMB flow — the protocol's own responder sees them directly
@@ -2029,11 +2177,13 @@ def explore_c12(prop, pd, tier, rng, corpus_cases):
             violations.append({'clause': '%s message marked as a reply was answered by the %s responder on a flow identified as %s' % (cls, cls, kind),
                                'ops': [op_to_json(x) for x in (scase['ops'][:2] + scase['ops'][i - 1:i + 1])], 'tags': [kind, 'sticky']})
     run_cases([l2case])
-    for (name, f), b in zip(frames, l2case['impl'][2:]):
+    for fi, ((name, f), b) in enumerate(zip(frames, l2case['impl'][2:])):
         if name == 'tcp-data':
             continue
         if outcome(b['r']) == 'reply':
-            violations.append({'clause': '%s elicited a reply' % name, 'ops': [op_to_json(l2case['ops'][0]), ['X'], op_to_json(('F', f))], 'tags': [name]})
+            # replay: the frame alone when that suffices, else with the history in front of it
+            hist = [op_to_json(('F', g)) for _, g in frames[max(0, fi - 12):fi]] if 'established' in name or 'with-data' in name else []
+            violations.append({'clause': '%s elicited a reply' % name, 'ops': [op_to_json(l2case['ops'][0]), ['X']] + hist + [op_to_json(('F', f))], 'tags': [name]})
     compared, exact = _corr(chain_cases + [l2case, scase], lambda o, b: proj_a(b['r']) if o[0] == 'A' else outcome(b['r']), disagreements)
     dist = {'l2l4_frames': len(frames), 'generated_app_replies': len(fixed), 'own_replies_reflected': len(own)}
     return _result(len(frames) + len(msgs), len(frames) + len(msgs), samples, compared, exact, disagreements, violations, pd['rule'], dist)
